@@ -399,6 +399,14 @@ func (g *bgen) schema(doc string, depth int, allowRef bool) O {
 		if g.Pct(30) {
 			s["type"] = "object"
 		}
+		if g.Pct(15) {
+			// a composition that also allows additional properties is still a composition
+			if g.Bool() {
+				s["additionalProperties"] = true
+			} else {
+				s["additionalProperties"] = g.schema(doc, depth+1, allowRef)
+			}
+		}
 		return s
 	default:
 		g.Label("exotic-holder")
@@ -412,7 +420,11 @@ func (g *bgen) schema(doc string, depth int, allowRef bool) O {
 			s["not"] = g.schema(doc, depth+1, allowRef)
 		case 3:
 			s["type"] = "object"
-			s["patternProperties"] = O{"^x-": g.schema(doc, depth+1, allowRef)}
+			pp := O{"^x-": g.schema(doc, depth+1, allowRef)}
+			if g.Bool() {
+				pp["^y-"] = g.schema(doc, depth+1, allowRef)
+			}
+			s["patternProperties"] = pp
 		case 4:
 			s["type"] = "object"
 			nm := g.Pick(g.pool)
